@@ -4,6 +4,7 @@ CONSTANTS
   KeepFirstError = FALSE
   RecoverPerStage = FALSE
   FirstErrorWins = TRUE
+  ErrReadAtCompletion = TRUE
 SPECIFICATION MCSpec
 INVARIANTS AtMostOnce OnlyAfterAll ErrorReported
 PROPERTY Terminates
